@@ -5,6 +5,7 @@ package main
 // integers below 2^64 are tracked for a few operations; anything else is opaque.
 
 import (
+	"fmt"
 	"go/types"
 	"math/big"
 	"reflect"
@@ -12,14 +13,52 @@ import (
 	"golang.org/x/tools/go/ssa"
 )
 
+// The side tables are keyed by a marker object stored in the big.Int's own `abs` slice, so that a
+// big.Int copied by value (e.g. the elements of a []big.Int passed around as interface values)
+// keeps its tracked value, and two elements of one slice do not share an entry.
+
+// bk: the key of the big.Int a pointer designates (nil: never written)
+func (in *Interp) bk(v Val) *Obj {
+	p, ok := v.(Ptr)
+	if !ok || p.Obj == nil {
+		return nil
+	}
+	sv, ok := in.loadRef(p).(*StructV)
+	if !ok || len(sv.F) != 2 {
+		return p.Obj
+	}
+	if sl, ok := sv.F[1].(SliceV); ok && sl.Obj != nil {
+		return sl.Obj
+	}
+	return nil
+}
+
+// bkw: a fresh key for a big.Int about to be (re)written
+func (in *Interp) bkw(v Val) *Obj {
+	p, ok := v.(Ptr)
+	if !ok || p.Obj == nil {
+		panic(abort("unmodelled", "big.Int receiver is not addressable"))
+	}
+	sv, ok := in.loadRef(p).(*StructV)
+	if !ok || len(sv.F) != 2 {
+		return p.Obj
+	}
+	o := in.newObj(&ArrayV{}, "big.Int value")
+	sv.F[1] = SliceV{Obj: o}
+	return o
+}
+
 func (in *Interp) bigForget(v Val) {
-	if p, ok := v.(Ptr); ok && p.Obj != nil {
-		delete(in.bigConc, p.Obj)
+	if k := in.bk(v); k != nil {
+		delete(in.bigConc, k)
 	}
 }
 
 // bigConcOf: the concrete value of a big.Int object, if it has one
 func (in *Interp) bigConcOf(o *Obj) (*big.Int, bool) {
+	if o == nil {
+		return new(big.Int), true // never written: zero value
+	}
 	if _, f := in.bigField[o]; f {
 		return nil, false
 	}
@@ -67,7 +106,8 @@ func (in *Interp) bigConcreteCall(fn *ssa.Function, name string, a []Val) (res V
 	if mt.IsVariadic() || mt.NumIn() != len(a) {
 		return nil, false
 	}
-	conc := map[*Obj]*big.Int{}
+	conc := map[string]*big.Int{}
+	concPtr := map[string]Ptr{}
 	argv := make([]reflect.Value, len(a))
 	for i := 0; i < len(a); i++ {
 		pt := mt.In(i)
@@ -81,14 +121,16 @@ func (in *Interp) bigConcreteCall(fn *ssa.Function, name string, a []Val) (res V
 				argv[i] = reflect.Zero(pt)
 				continue
 			}
-			c, have := conc[p.Obj]
+			key := ptrKey2(p)
+			c, have := conc[key]
 			if !have {
-				v, okc := in.bigConcOf(p.Obj)
+				v, okc := in.bigConcOf(in.bk(p))
 				if !okc {
 					return nil, false
 				}
 				c = new(big.Int).Set(v)
-				conc[p.Obj] = c
+				conc[key] = c
+				concPtr[key] = p
 			}
 			argv[i] = reflect.ValueOf(c)
 		case pt.Kind() == reflect.Int || pt.Kind() == reflect.Int64:
@@ -150,8 +192,11 @@ func (in *Interp) bigConcreteCall(fn *ssa.Function, name string, a []Val) (res V
 			}
 		}
 	}
-	for o, c := range conc {
-		in.bigSetConc(o, c)
+	for k, c := range conc {
+		if old, okc := in.bigConcOf(in.bk(concPtr[k])); okc && old.Cmp(c) == 0 && in.bk(concPtr[k]) != nil {
+			continue // unchanged operand keeps its key
+		}
+		in.bigSetConc(in.bkw(concPtr[k]), c)
 	}
 	mapOut := func(v reflect.Value, idx int) Val {
 		ot := mt.Out(idx)
@@ -168,7 +213,7 @@ func (in *Interp) bigConcreteCall(fn *ssa.Function, name string, a []Val) (res V
 			}
 			et := fn.Signature.Results().At(idx).Type().(*types.Pointer).Elem()
 			o := in.newObj(in.zero(et), "big.Int")
-			in.bigSetConc(o, rp)
+			in.bigSetConc(in.bkw(Ptr{Obj: o}), rp)
 			return Ptr{Obj: o}
 		case ot.Kind() == reflect.Bool:
 			return BoolConst(v.Bool())
@@ -220,27 +265,25 @@ func bigIntSymbolicStub(name string, sig *types.Signature, bigVal func(in *Inter
 			if !n.IsConst || n.C > 40 || !x.IsConst || x.C > 1<<20 {
 				panic(abort("unmodelled", "big.Int.Lsh beyond the tracked 64-bit range"))
 			}
-			in.bigVals[a[0].(Ptr).Obj] = BVConst(x.C<<n.C, 64)
+			in.bigVals[in.bkw(a[0])] = BVConst(x.C<<n.C, 64)
 			return a[0]
 		}
 	case "Set":
 		return func(in *Interp, fn *ssa.Function, a []Val) Val {
-			if sp, ok := a[1].(Ptr); ok && sp.Obj != nil {
-				if t, ok := in.bigField[sp.Obj]; ok {
-					in.bigField[a[0].(Ptr).Obj] = t
-					delete(in.bigVals, a[0].(Ptr).Obj)
+			if sk := in.bk(a[1]); sk != nil {
+				if t, ok := in.bigField[sk]; ok {
+					in.bigField[in.bkw(a[0])] = t
 					return a[0]
 				}
 			}
-			delete(in.bigField, a[0].(Ptr).Obj)
-			in.bigVals[a[0].(Ptr).Obj] = bigVal(in, a[1])
+			v := bigVal(in, a[1])
+			in.bigVals[in.bkw(a[0])] = v
 			return a[0]
 		}
 	case "FillBytes":
 		return func(in *Interp, fn *ssa.Function, a []Val) Val {
 			buf := a[1].(SliceV)
-			p := a[0].(Ptr)
-			if t, ok := in.bigField[p.Obj]; ok {
+			if t, ok := in.bigField[in.bk(a[0])]; ok && in.bk(a[0]) != nil {
 				// big-endian encoding of a field value: the same bytes Element.Marshal produces
 				ts := in.memoBytes(t.S, buf.Len, "elembytes")
 				for i := 0; i < buf.Len; i++ {
@@ -264,8 +307,7 @@ func bigIntSymbolicStub(name string, sig *types.Signature, bigVal func(in *Inter
 		}
 	case "SetUint64", "SetInt64":
 		return func(in *Interp, fn *ssa.Function, a []Val) Val {
-			delete(in.bigField, a[0].(Ptr).Obj)
-			in.bigVals[a[0].(Ptr).Obj] = a[1].(*Term)
+			in.bigVals[in.bkw(a[0])] = a[1].(*Term)
 			return a[0]
 		}
 	case "Uint64", "Int64":
@@ -275,3 +317,6 @@ func bigIntSymbolicStub(name string, sig *types.Signature, bigVal func(in *Inter
 	}
 	return nil
 }
+
+
+func ptrKey2(p Ptr) string { return fmt.Sprintf("%d:%v", p.Obj.ID, p.Path) }
